@@ -280,21 +280,22 @@ def obligations(tier: str) -> List[dict]:
             tot(n, 300, ['must-fail', 'must-succeed'] if n == 2 else [])
         tot_sliced(3, 300, small=True)
     else:
-        anym(2, 1, True, 2, 3000, ['several-markers'])
+        anym(2, 1, True, 2, 1800, ['several-markers'])
+        anym(1, 2, True, 2, 1800)
         for s0 in (0, 1):
-            for m0 in (0, 1, 2):
-                for t0 in (0, 1, 2):
-                    anym(2, 2, False, 2, 3000, e0_s=s0, m0_push=m0, e0_t=t0)
-                anym(2, 2, True, 1, 3000, e0_s=s0, m0_push=m0)
+            for t0 in (0, 1, 2):
+                anym(2, 2, False, 1, 1800, e0_s=s0, e0_t=t0)
+            anym(2, 2, True, 0, 1800, e0_s=s0)
         for b in range(len(BASES)):
             for kind in range(5):
-                edits(b, 2, 1500, e0_kind=kind)
+                edits(b, 2, 1800, e0_kind=kind)
+        for b in (1, 3):
+            for kind in range(5):
                 for kind2 in range(5):
-                    edits(b, 3, 3000, e0_kind=kind, e1_kind=kind2)
+                    edits(b, 3, 1800, e0_kind=kind, e1_kind=kind2, e2_kind=0)
         for n in (0, 1, 2):
             tot(n, 1200)
-        tot_sliced(3, 1500)
-        tot_sliced(4, 3000)
+        tot_sliced(3, 1800)
     return obs
 
 
